@@ -671,17 +671,22 @@ def check_C07(ctx):
             # stats
             st = o["stats"]["stdout"].decode("utf-8", "surrogateescape")
             nrec_log = sum(1 for it in w["log"] if it[0] == "heading"); nrec_db = sum(1 for it in w["book"] if it[0] == "heading")
-            m1 = re.search(r"Log records:\s+(\d+)", st); m2 = re.search(r"Database records:\s+(\d+)", st)
-            if not m1 or not m2 or int(m1.group(1)) != nrec_log or int(m2.group(1)) != nrec_db:
-                viol("stats-counts", "stats counts %s / %s, the files have %d book and %d log headings" % (m2 and m2.group(1), m1 and m1.group(1), nrec_db, nrec_log), "stats")
+            # read by shape, not by the wording of the labels (a reworded label is not a wrong number): the lines "label: <integer>" are the
+            # book and the log count in that order, the lines "label: <date> (<n> day(s) ago)" the first and the last record
+            counts = [int(x) for x in re.findall(r"^[^:\n]+:[ \t]+(\d+)[ \t]*$", st, re.M)]
+            agos = re.findall(r"^[^:\n]+:[ \t]+(\S+) \((-?\d+) days? ago\)[ \t]*$", st, re.M)
+            if len(counts) == 2:
+                if counts != [nrec_db, nrec_log]:
+                    viol("stats-counts", "stats counts %s / %s, the files have %d book and %d log headings" % (counts[0], counts[1], nrec_db, nrec_log), "stats")
+            else: ctx.tally("stats_oracle", "counts not recognisable: skipped")
             hs = [h for h, _ in log_days(w)]
-            if hs:
+            if hs and len(agos) == 2:
                 today = datetime.date(2021, 2, 1)
-                for label, h in (("First record", hs[0]), ("Last record", hs[-1])):
-                    m = re.search(label + r":\s+(\S+) \((-?\d+) days ago\)", st)
+                for label, h, (gd, gn) in (("first record", hs[0], agos[0]), ("last record", hs[-1], agos[1])):
                     dd = datetime.date(*map(int, h.split("/")))
-                    if not m or m.group(1) != h or int(m.group(2)) != (today - dd).days:
-                        viol("stats-dates", "stats %s: %r, expected %s (%d days before --today)" % (label, m and m.groups(), h, (today - dd).days), "stats"); break
+                    if gd != h or int(gn) != (today - dd).days:
+                        viol("stats-dates", "stats %s: %r, expected %s (%d days before --today)" % (label, (gd, gn), h, (today - dd).days), "stats"); break
+            elif hs: ctx.tally("stats_oracle", "dates not recognisable: skipped")
         except (ValueError, IndexError, ZeroDivisionError, AttributeError) as e:
             viol("unparsable-report", "a report does not have its shape: %r" % (e,), "totals")
     return dict(rule="plain-name exact-arithmetic worlds; 14 reports per world on the real binary, each compared with the extracted Coq model, and the property's relations evaluated on the "
